@@ -821,6 +821,30 @@ func corpusClasses() []FileDef {
 			Const{Name: "Db", Val: "1", Cells: []Cell{num(kdur, "_", "2"), num(kAux, "_", "0")}},
 			Const{Name: "Dc", Val: "2", Cells: []Cell{num(kdur, "_", "7201"), num(kAux, "_", "47")}}),
 	}})
+	// F. several enums generated by ONE invocation that refer to each other: an enum with a parsable trait of its
+	//    OWN type (decoded through its underlying integer: it cannot decode through itself) and an enum with a
+	//    parsable trait typed as that enum (decoded through that enum's own unmarshalers, which this invocation
+	//    generates) — in both orders of -types
+	ownTy := func(own bool, o Opts) TypeInfo {
+		return TypeInfo{Ty: "pkg.E0", BKind: "BInt", JSONOwn: own && o.JSON, YAMLOwn: own && o.YAML, TextOwn: false, Ref: "E0"}
+	}
+	e0c := func(v, name string, val int) Cell {
+		return Cell{Var: v, Expr: name, Ty: "pkg.E0", Kind: "int", Int: strconv.Itoa(val)}
+	}
+	for _, order := range [][2]int{{0, 1}, {1, 0}} {
+		oh := defaultOpts()
+		oh.Parsable = []string{"Fb", "Peer"}
+		mode := traitEnum("E0", uByName("int"), 0, []TypeInfo{ownTy(false, oh)},
+			Const{Name: "Strict", Val: "0", Cells: []Cell{e0c("_Fb", "Lenient", 1)}},
+			Const{Name: "Lenient", Val: "1", Cells: []Cell{e0c("_", "Loose", 2)}},
+			Const{Name: "Loose", Val: "2", Cells: []Cell{e0c("_", "Strict", 0)}})
+		policy := traitEnum("E1", uByName("uint8"), 1, []TypeInfo{ownTy(true, oh)},
+			Const{Name: "Pa", Val: "0", Cells: []Cell{e0c("_Peer", "Lenient", 1)}},
+			Const{Name: "Pb", Val: "1", Cells: []Cell{e0c("_", "Strict", 0)}},
+			Const{Name: "Pc", Val: "7", Cells: []Cell{e0c("_", "Loose", 2)}})
+		both := []EnumDef{mode, policy}
+		out = append(out, FileDef{Kind: "corpus", Opts: oh, Traits: true, Enums: []EnumDef{both[order[0]], both[order[1]]}})
+	}
 	// D. parsable bool traits (untyped and typed): at most one value per boolean
 	oe := defaultOpts()
 	oe.Parsable = []string{"Up"}
